@@ -43,6 +43,7 @@ pub fn classes_vec(c: &Classes) -> Vec<(&'static str, u64)> {
         ("cases_ended_by_panic", b(c.ended_by_panic)),
         ("cases_from_template", b(c.templates > 0)),
         ("cases_with_swarm_configuration", b(c.swarmed)),
+        ("cases_with_observer_created_inside_a_handler", b(c.observers_created_in_handlers > 0)),
         ("cases_with_inner_node_observed", b(c.inner_observed > 0)),
         ("cases_with_no_observer_round", b(c.no_observer_rounds > 0)),
         ("cases_with_invalidation", b(c.invalidated > 0)),
